@@ -735,9 +735,9 @@ func (p Parameters) BinarySize() int {
 func CheckModuli(q, p []uint64) error {
 
 	for i, qi := range q {
-		/* #nosec G115 -- error is returned if integer overflow conversion */
-		if uint64(bits.Len64(qi)-1) > MaxModuliSize+1 {
-			return fmt.Errorf("a Qi bit-size (i=%d) is larger than %d", i, MaxModuliSize)
+		// The lazy arithmetic (NTT, Montgomery) holds values up to 8*qi in a uint64: qi must be smaller than 2^61
+		if bits.Len64(qi) > MaxModuliSize+1 {
+			return fmt.Errorf("a Qi bit-size (i=%d) is larger than %d", i, MaxModuliSize+1)
 		}
 	}
 
@@ -750,9 +750,8 @@ func CheckModuli(q, p []uint64) error {
 	if p != nil {
 
 		for i, pi := range p {
-			/* #nosec G115 -- error is triggered if integer overflow conversion */
-			if uint64(bits.Len64(pi)-1) > MaxModuliSize+2 {
-				return fmt.Errorf("a Pi bit-size (i=%d) is larger than %d", i, MaxModuliSize)
+			if bits.Len64(pi) > MaxModuliSize+1 {
+				return fmt.Errorf("a Pi bit-size (i=%d) is larger than %d", i, MaxModuliSize+1)
 			}
 		}
 
